@@ -57,10 +57,14 @@ Qed.
 
 Lemma obs_eqb_spec a b : obs_eqb a b = true <-> a = b.
 Proof.
-  destruct a as [s1 a1 c1], b as [s2 a2 c2]. unfold obs_eqb; simpl.
+  destruct a as [s1 a1 c1 r1], b as [s2 a2 c2 r2]. unfold obs_eqb; simpl.
   rewrite !andb_true_iff, N.eqb_eq, (list_eqb_spec authrec_eqb authrec_eqb_spec),
     (list_eqb_spec call_eqb call_eqb_spec).
-  split; [intros [[-> ->] ->]; reflexivity|intros H; inversion H; auto].
+  destruct r1 as [x|], r2 as [y|].
+  - rewrite str_eqb_spec. split; [intros [[[-> ->] ->] ->]; reflexivity|intros H; inversion H; auto].
+  - split; [intros [_ H]; discriminate H|intros H; discriminate H].
+  - split; [intros [_ H]; discriminate H|intros H; discriminate H].
+  - split; [intros [[[-> ->] ->] _]; reflexivity|intros H; inversion H; auto].
 Qed.
 
 (* ------------------------------------------------------------------ *)
@@ -146,7 +150,7 @@ Theorem handle_refused cfg c m tbl sc rq tr r :
   gate_alts cfg c m <> [] /\
   (forall l, In l (gate_alts cfg c m) -> exists ck, In ck l /\ refused_in tr ck = true) /\
   last_refusal tr = Some r /\
-  predicted (handle cfg c m tbl sc rq) = Some (mkObs (rf_status r) (auth_records tr) []).
+  predicted (handle cfg c m tbl sc rq) = Some (mkObs (rf_status r) (auth_records tr) [] None).
 Proof.
   intros Hh. destruct (handle_unfold cfg c m tbl sc rq) as [hist [res [tr0 [Ha E]]]].
   rewrite E in Hh. destruct res as [r0|].
@@ -477,3 +481,82 @@ Example demo_status :
   = Invoked (s "C") (s "Get")
             [ACtx (Some 1%N); AVal (Some (VInt 5)); AVal (Some (VUint 7)); AVal (Some (VStr (s "v")))] 500%N.
 Proof. vm_compute. reflexivity. Qed.
+
+(* ------------------------------------------------------------------ *)
+(* documented `required` = enforced requiredness (C05 / C06 across the two artifacts):
+   the flag the OpenAPI document shows for a parameter ([Spec.param_required], the `required`
+   of the emitted parameter object) decides what the handler does with a request that does
+   not carry the parameter *)
+
+Lemma parse_rule_required t : parse_rule t = RRequired -> t = s "required".
+Proof.
+  unfold parse_rule. destruct (str_eqb t (s "required")) eqn:E; [intros _; apply str_eqb_spec; exact E|].
+  repeat match goal with
+  | |- context [if has_prefix ?p t then _ else _] => destruct (has_prefix p t)
+  | |- context [match parse_int 64 ?x with _ => _ end] => destruct (parse_int 64 x)
+  end; intros H; discriminate H.
+Qed.
+
+Lemma only_required_has_tag tag : tag <> [] -> only_required tag -> has_required_tag tag = true.
+Proof.
+  intros Hne Hor. unfold only_required, rules_of in Hor. unfold has_required_tag, comma.
+  destruct tag as [|b t]; [contradiction|]. cbn [is_nil] in Hor.
+  destruct (split_on ","%byte (b :: t)) as [|x xs] eqn:E; [exfalso; exact (split_on_not_nil _ _ E)|].
+  apply existsb_exists. exists x. split; [left; reflexivity|].
+  apply str_eqb_spec. apply parse_rule_required. apply Hor. apply in_map. left; reflexivity.
+Qed.
+
+Theorem documented_required_is_enforced authn rq p ty :
+  scalar_param p -> prim_of (pa_type p) = Some ty -> only_required (reduced_validator p) ->
+  (lookup (rq_fields rq) (pa_loc p) (wire_name p) = None \/ lookup (rq_fields rq) (pa_loc p) (wire_name p) = Some []) ->
+  (param_required p = true -> bind_param authn rq p = BReject) /\
+  (param_required p = false -> bind_param authn rq p = BArg (AVal None)).
+Proof.
+  intros [Hc [Hl Hs]] Hty Hor Habs. unfold param_required.
+  assert (Hb : bind_param authn rq p = nil_bound (rules_of (reduced_validator p)) (AVal None)).
+  { unfold bind_param. rewrite Hc. destruct (pa_loc p) eqn:El; try contradiction; rewrite Hty, Hs;
+      destruct Habs as [Ha|Ha]; rewrite Ha; reflexivity. }
+  rewrite Hb. unfold nil_bound. split; intros Hreq.
+  - destruct (is_nil (rules_of (reduced_validator p))) eqn:En.
+    + apply rules_of_nil in En. rewrite En in Hreq. discriminate Hreq.
+    + assert (Hno : existsb rule_is_other (rules_of (reduced_validator p)) = false).
+      { destruct (existsb rule_is_other (rules_of (reduced_validator p))) eqn:Ee; [|reflexivity].
+        apply existsb_exists in Ee. destruct Ee as [r [Hin Hr]]. rewrite (Hor r Hin) in Hr. discriminate Hr. }
+      rewrite Hno. reflexivity.
+  - destruct (reduced_validator p) as [|b t] eqn:Et; [reflexivity|].
+    assert (Hne : b :: t <> []) by discriminate.
+    rewrite (only_required_has_tag (b :: t) Hne Hor) in Hreq. discriminate Hreq.
+Qed.
+
+(* ------------------------------------------------------------------ *)
+(* the conversion statement the translator found in a generated handler computes exactly the
+   model's conversion of the declared type: [RouterParams.tparam_ok] (per-run translation
+   obligation, evaluated on every generated file) => strconv call = [Bind.convert] *)
+From Gleece Require Import Model.Router Model.RouterParams.
+
+Lemma expected_conv_is_convert t ty raw :
+  prim_of t = Some ty ->
+  go_strconv (fst (expected_conv t)) (snd (expected_conv t)) raw = convert ty raw.
+Proof.
+  unfold prim_of.
+  repeat match goal with
+  | |- (if str_eqb t ?k then _ else _) = _ -> _ =>
+      let E := fresh "E" in destruct (str_eqb t k) eqn:E;
+      [apply str_eqb_spec in E; subst t; intros H; inversion H; subst ty; reflexivity|]
+  end.
+  intros H; discriminate H.
+Qed.
+
+Theorem translated_conversion_is_model_conversion e p t ty raw :
+  tparam_ok e p t = true -> pa_loc p <> LBody -> prim_of (pa_type p) = Some ty ->
+  go_strconv (tp_conv t) (tp_bits t) raw = convert ty raw.
+Proof.
+  intros Hok Hl Hty. unfold tparam_ok in Hok.
+  destruct (loc_eqb (pa_loc p) LBody) eqn:El.
+  { exfalso. apply Hl. destruct (pa_loc p); simpl in El; try discriminate El; reflexivity. }
+  rewrite <- (expected_conv_is_convert (pa_type p) ty raw Hty).
+  destruct (expected_conv (pa_type p)) as [c b] eqn:Ec. cbn [fst snd].
+  repeat match goal with H : _ && _ = true |- _ => apply andb_true_iff in H; destruct H end.
+  match goal with H1 : str_eqb (tp_conv t) c = true, H2 : str_eqb (tp_bits t) b = true |- _ =>
+    apply str_eqb_spec in H1; apply str_eqb_spec in H2; rewrite H1, H2; reflexivity end.
+Qed.
